@@ -278,7 +278,7 @@ func (e *Env) RunBuild(o BuildOpts) *Obs {
 	}
 	args = append(args, o.Flags...)
 	args = append(args, o.Patterns...)
-	res := e.M.Run(args, grog.RunOpts{Cwd: o.Cwd, Build: build, Env: o.Env, Timeout: o.Timeout, Pty: e.Pty && len(o.Wrapper) == 0, Wrapper: o.Wrapper})
+	res := e.M.Run(args, grog.RunOpts{Cwd: o.Cwd, Build: build, Env: o.Env, Timeout: o.Timeout, Pty: e.Pty, Wrapper: o.Wrapper})
 	obs := e.readTrace(build)
 	obs.Res = res
 	tty := ""
